@@ -156,6 +156,59 @@ func concSingleton(rep *concReport, goroutines int) {
 	rep.add("singleton", ok, "chains=%d goroutines=%d runs=%d finished=%v %s", chains, goroutines, runs, fin, detail)
 }
 
+// concSingletonStacked: Singleton with another annotation above or below it (on the provider or on a collection
+// holding it): still one call for the process, and every chain observes that call's result.
+func concSingletonStacked(rep *concReport) {
+	type mk struct {
+		name string
+		f    func(fn any) any
+	}
+	variants := []mk{
+		{"Required(Singleton)", func(fn any) any { return nject.Required(nject.Singleton(fn)) }},
+		{"Desired(Singleton)", func(fn any) any { return nject.Desired(nject.Singleton(fn)) }},
+		{"MustCache(Singleton)", func(fn any) any { return nject.MustCache(nject.Singleton(fn)) }},
+		{"Cacheable(Singleton)", func(fn any) any { return nject.Cacheable(nject.Singleton(fn)) }},
+		{"Provide(Singleton)", func(fn any) any { return nject.Provide("stacked", nject.Singleton(fn)) }},
+		{"Singleton(MustCache)", func(fn any) any { return nject.Singleton(nject.MustCache(fn)) }},
+		{"Singleton(Cacheable)", func(fn any) any { return nject.Singleton(nject.Cacheable(fn)) }},
+		{"Singleton(Provide)", func(fn any) any { return nject.Singleton(nject.Provide("stacked", fn)) }},
+		{"MustCache(Sequence(Singleton))", func(fn any) any { return nject.MustCache(nject.Sequence("in", nject.Singleton(fn))) }},
+		{"Cacheable(Sequence(Singleton))", func(fn any) any { return nject.Cacheable(nject.Sequence("in", nject.Singleton(fn))) }},
+		{"Singleton(Sequence(MustCache))", func(fn any) any { return nject.Singleton(nject.Sequence("in", nject.MustCache(fn))) }},
+		{"Shun(Singleton)", func(fn any) any { return nject.Shun(nject.Singleton(fn)) }},
+	}
+	var bad []string
+	for _, v := range variants {
+		var runs int64
+		p := v.f(func() T2 { return T2{Tag: uint64(500 + atomic.AddInt64(&runs, 1))} })
+		const chains = 3
+		invs := make([]func() T2, chains)
+		failed := false
+		for i := range invs {
+			if err := nject.Sequence(fmt.Sprintf("ST%d", i), p, func(x T2) T2 { return x }).Bind(&invs[i], nil); err != nil {
+				bad = append(bad, fmt.Sprintf("%s: bind: %v", v.name, err))
+				failed = true
+				break
+			}
+		}
+		if failed {
+			continue
+		}
+		res := make([]uint64, 2*chains)
+		fin := parallel(len(res), 20*time.Second, func(g int) { res[g] = invs[g%chains]().Tag })
+		if !fin || atomic.LoadInt64(&runs) != 1 {
+			bad = append(bad, fmt.Sprintf("%s: ran %d times in %d chains (finished=%v)", v.name, runs, chains, fin))
+		}
+		for _, r := range res {
+			if r != 501 {
+				bad = append(bad, fmt.Sprintf("%s: a caller observed %d", v.name, r))
+				break
+			}
+		}
+	}
+	rep.add("singleton-stacked", len(bad) == 0, "variants=%d %s", len(variants), strings.Join(bad, "; "))
+}
+
 func concStaticOnce(rep *concReport, goroutines int, withInit bool) {
 	var runs int64
 	static := nject.Cacheable(func(a T0) T3 {
@@ -218,9 +271,13 @@ func concIsolation(rep *concReport, goroutines, iters int, parallelWrapper bool)
 			return T4{Tag: x.Tag*1000 + y.Tag}
 		})
 	}
+	var gated int64
 	var inv func(T0) T4
 	err := nject.Sequence("X",
+		// a wrapper that takes nothing from the chain but its inner: its argument list is still its own
+		nject.Required(func(inner func()) { atomic.AddInt64(&gated, 1); inner() }),
 		wrapper,
+		nject.Required(func(inner func()) { inner(); atomic.AddInt64(&gated, 1) }),
 		func(b T1) T2 { return T2{Tag: b.Tag + 3} },
 		func(inner func(T3) T4, c T2) T4 { r := inner(T3{Tag: c.Tag * 5}); return T4{Tag: r.Tag + 1} },
 		func(d T3, b T1) T4 { return T4{Tag: d.Tag + b.Tag} },
@@ -419,9 +476,17 @@ func memoKeys(rep *concReport) {
 			rep.add("memokey-"+sh.name, false, "bind: %v", err)
 			continue
 		}
-		var r1, r2 T3
-		s := guarded(5*time.Second, func() { r1 = inv3(sh.hashable); r2 = inv3(sh.hashable); inv3(sh.unhashble); inv3(sh.unhashble) })
-		rep.add("memokey-"+sh.name, s == "" && cnt == 3 && r1 == r2, "calls=%d (want 3: once for the hashable value, each time for the unhashable one) %s", cnt, s)
+		var r1, r2, r3 T3
+		s := guarded(5*time.Second, func() {
+			r1 = inv3(sh.hashable)
+			r2 = inv3(sh.hashable)
+			inv3(sh.unhashble)
+			inv3(sh.unhashble)
+			// whether a value can be a key is decided per value: the hashable one is still memoized afterwards
+			r3 = inv3(sh.hashable)
+		})
+		rep.add("memokey-"+sh.name, s == "" && cnt == 3 && r1 == r2 && r3 == r1,
+			"calls=%d (want 3: once for the hashable value -- also when it comes again after the unhashable one --, each time for the unhashable one) %s", cnt, s)
 	}
 	{
 		var cnt int
@@ -785,6 +850,7 @@ func runConc(seed int64, rounds int) []string {
 	memoKeys(rep)
 	memoNilPointers(rep)
 	concSingletonSibling(rep)
+	concSingletonStacked(rep)
 	isolationRetryAfterPanic(rep)
 	detailedErrorDupTypes(rep)
 	for r := 0; r < rounds; r++ {
